@@ -304,7 +304,7 @@ def validator_cases(ctx):
     add("blind-spot/f negative between grid points", "blind spot", None, neg, neg.antiderivative())
 
     # ---- generated families
-    reps = 40 if ctx.thorough else 7
+    reps = 60 if ctx.thorough else 7
     configs = [(E, 10)] * 5 + [(E, 0), (E, 1), (E, 2), (E, 3), (E, 17), (Fraction(1, 1000), 10), (Fraction(1, 10 ** 8), 10),
                                 (e2, 10), (Fraction(1, 4), 5), (Fraction(3, 5), 4)]
     for kind, mk in DENSITIES.items():
@@ -438,7 +438,7 @@ def gaussian_cases(ctx):
           (1.0, 0.02, "corpus"), (-12.0, 50.0, "corpus"), (13.0, 50.0, "corpus"), (np.float64(0.3), np.float64(0.1), "corpus: np.float64"),
           (0, 2, "corpus: ints"), (0.37, 0.02, "corpus: narrow"), (-1.0, 0.25, "corpus"), (2.0, 0.25, "corpus"), (-5.0, 1.0, "corpus"),
           (6.0, 1.0, "corpus"), (-7.0, 1.0, "corpus"), (-12.0, 2.0, "corpus"), (13.0, 2.0, "corpus")]
-    n = 1500 if ctx.thorough else 130
+    n = 4000 if ctx.thorough else 130
     for i in range(n):
         scale = math.exp(rng.uniform(math.log(0.02), math.log(50.0)))
         r = rng.random()
@@ -531,6 +531,27 @@ def check_gaussian(loc, scale, xs, ref, perform_checks=False):
     info.update(status="accepted", failures=fails, integral=integral, worst_w=worst_w, worst_F=worst_F, Z_true=Zt, Z_implied=Zf,
                 panels=panels)
     return info
+
+
+def check_constant_pulses():
+    """C13 for the bundled constant pulses on the real objects: waveform 1, parametrisation x"""
+    import quantum_gates.pulses as pub
+    fails = []
+    for name, obj in (("constant_pulse", pub.constant_pulse), ("constant_pulse_numerical", pub.constant_pulse_numerical),
+                      ("ConstantPulse()", pub.ConstantPulse()), ("ConstantPulseNumerical()", pub.ConstantPulseNumerical())):
+        w, F = obj.get_pulse(), obj.get_parametrization()
+        xs = [k / 16 for k in range(17)]
+        integral = math.fsum(0.5 * wt * float(w(0.5 + 0.5 * x)) for x, wt in zip(_GL[0], _GL[1]))
+        bad = None
+        if any(float(w(x)) != 1.0 for x in xs):
+            bad = "waveform is not 1"
+        elif any(float(F(x)) != x for x in xs):
+            bad = "parametrisation is not x (not the running integral, 0 at 0, 1 at 1)"
+        elif abs(integral - 1.0) > 1e-12:
+            bad = f"waveform integrates to {integral!r}"
+        if bad:
+            fails.append((name, bad))
+    return fails
 
 
 def classify(info):
@@ -930,6 +951,13 @@ def main(ctx):
     cov["gaussian_worst_error_among_passing"] = worst_ok
     cov["gaussian_notes"] = {k: v[:8] + ([f"... {len(v)} in total"] if len(v) > 8 else []) for k, v in notes.items()}
 
+    cfails = []
+    try:
+        cfails = check_constant_pulses()
+        ctx.count(4)
+    except Exception as e:                                  # noqa
+        cfails = [("constant pulses", f"raised {type(e).__name__}: {str(e)[:120]}")]
+
     # ---- 6. pickling (outside the proof)
     pfails, pobjs = [], []
     try:
@@ -997,25 +1025,30 @@ def main(ctx):
     if tails:
         info, xs, ref, sig, what = tails[0]
         ctx.violation(sig, {"kind": "gaussian", "loc": info["loc"], "scale": info["scale"], "xs": xs, "ref": ref, "failure": what,
+                            "cases_of_this_class": len(tails),
                             "same_class": [[g[0]["loc"], g[0]["scale"], g[0].get("integral")] for g in tails[1:40]]},
                       f"GaussianPulse(loc={info['loc']}, scale={info['scale']}) is accepted but violates C13 in floating point: {what} "
                       f"[cdf(1) - cdf(0) cancels in the left tail: true weight {info['Z_true']:.6e}, weight used {info['Z_implied']:.6e}; "
-                      f"{len(tails)} case(s) of this class; outside the theorems, which are about real numbers — defect D16]")
+                      f"outside the theorems, which are about real numbers — defect D16]")
     for info, xs, ref, sig, what in [g for g in gfails if g[3].get("kind") != "float-tail"][:3]:
         unexplained += 1
         ctx.violation(sig, {"kind": "gaussian", "loc": info["loc"], "scale": info["scale"], "xs": xs, "ref": ref, "failure": what},
                       f"GaussianPulse(loc={info['loc']}, scale={info['scale']}): {what}")
-    rounding = [v for v in vfails if v[2] is not None]
+    rounding = sorted([v for v in vfails if v[2] is not None], key=lambda v: "smooth" not in v[0])     # closed-form pairs first
     if rounding:
         c, what, sig = rounding[0]
         ctx.violation(sig, validator_replay(c, what, [v[0]["family"] for v in rounding[1:30]]),
                       f"Pulse(f, F, perform_checks=True) on '{c['family']}': {what} [the sampled monotonicity test compares "
                       f"F(x+eps) >= F(x) without slack; the true increase over the last step is below the rounding error of F, so rounding "
-                      f"decides; {len(rounding)} pair(s) of this class; outside the theorems, which are about real numbers — defect D17]")
+                      f"decides; outside the theorems, which are about real numbers — defect D17]")
     for c, what, sig in [v for v in vfails if v[2] is None][:3]:
         unexplained += 1
         ctx.violation({"kind": "oracle", "part": "validator", "family": c["family"]}, validator_replay(c, what),
                       f"Pulse(f, F, perform_checks={c.get('checks', True)}) on family '{c['family']}': {what}")
+    for name, bad in cfails[:2]:
+        unexplained += 1
+        ctx.violation({"kind": "oracle", "part": "constant", "object": name}, {"kind": "constant", "object": name, "failure": bad},
+                      f"bundled {name}: {bad}")
     for name, bad in pfails[:3]:
         unexplained += 1
         ctx.violation({"kind": "oracle", "part": "pickle", "object": name}, {"kind": "pickle", "object": name, "failure": bad},
@@ -1061,6 +1094,10 @@ def replay(ctx, path):
         ok = ("ok" in r) == (rp["expected"] == "accept") and (rp["expected"] == "accept" or r.get("err") == "AssertionError")
         print(f"family {rp['family']}: implementation {r}; the property demands: {rp['expected']}; oracle:", "holds" if ok else "fails")
         return 0 if ok else 1
+    if kind == "constant":
+        fails = check_constant_pulses()
+        print("bundled constant pulses:", fails or "oracle holds")
+        return 1 if fails else 0
     if kind == "smooth-pair":
         r = run_smooth_pair(rp["name"])
         print(f"Pulse(f, F, perform_checks=True) for the exactly valid smooth pair '{rp['name']}': implementation {r}; the property "
